@@ -143,6 +143,15 @@ Definition mon_one_in_flight (s : State) : bool :=
                                        ((o_status kv.2 =? OrderPending) || (o_status kv.2 =? OrderDataReady)))
                             (zitems (orders s)))) 1).
 
+(* the head of a model with no update in flight is its latest committed version (what a rollback must restore) *)
+Definition mon_head_is_last_committed (s : State) : bool :=
+  all_s (metas s) (fun _ m =>
+    if m_status m =? MetaComplete then
+      match last_opt (m_commits m) with
+      | Some v => String.eqb (m_commit m) (commit_of_version v)
+      | None => true end
+    else true).
+
 (** C20 / C03 *)
 Definition mon_super_ok (s : State) : bool :=
   all_s (nodes s) (fun a n =>
@@ -169,6 +178,15 @@ Definition mon_long_timeout_scheduled (h : Z) (s : State) : bool :=
     else true).
 Definition mon_timeouts_future (h : Z) (s : State) : bool := all_z (timeouts s) (fun k _ => h <? k).
 
+(** C15 / C12: the providers holding the (distinct) shards of one order are pairwise distinct -- a
+    provider that holds, or has timed out on, a shard of the order is never chosen again for it.
+    This is also the variant of timeout progress: every re-assignment uses up a fresh provider. *)
+Fixpoint dedupz (l : list Z) : list Z :=
+  match l with [] => [] | x :: r => if inZ x r then dedupz r else x :: dedupz r end.
+Definition mon_order_sps_distinct (s : State) : bool :=
+  all_z (orders s) (fun _ o =>
+    nodup_strb (omap (fun id => match shards s !! id with Some sh => Some (sh_sp sh) | None => None end) (dedupz (o_shards o)))).
+
 Definition app_monitors (boundary : bool) (h : Z) (s : State) : list (string * bool) :=
   [ ("ref.order_shards_exist", mon_order_shards_exist s);
     ("ref.migrating_private", mon_migrating_private s);
@@ -193,7 +211,9 @@ Definition app_monitors (boundary : bool) (h : Z) (s : State) : list (string * b
     ("solv.order", mon_order_solvent s);
     ("solv.node", mon_node_solvent s);
     ("solv.market", negb boundary || mon_market_solvent h s);
+    ("sel.order_sps_distinct", mon_order_sps_distinct s);
     ("ids.below_count", mon_ids s);
     ("ids.one_in_flight", mon_one_in_flight s);
+    ("ver.head_is_last_committed", mon_head_is_last_committed s);
     ("super.role_ok", mon_super_ok s);
     ("proc.no_residue", mon_no_residue s) ].
